@@ -36,6 +36,7 @@ def park1(ctx: Ctx, chk) -> None:
         if f in done:
             continue
         done.add(f)
+        f = ctx.inl(f, lambda h: not h.name.lstrip("_").startswith("handle"))  # a write/park step extracted into a helper
         g = CFG(f.node)
         cn = Canon(I, f)
         msg = message_param(f)
@@ -86,14 +87,19 @@ def park1(ctx: Ctx, chk) -> None:
             # condition
             chk.instance(rule)
             snode = g.nodes_of(sb._stmt(ctx, f, st))
-            tests = [t for t in g.nodes if t.kind == "test" and all(g.dominates(t, s) for s in snode)]
+            tests = [t for t in g.nodes if t.kind == "test" and all(g.dominates(t, s) for s in snode) and sb.branch_polarity(g, t, snode) is not None]
             # inner tests that only choose between storing and refreshing the entry are not part of the parking decision
             tests = [t for t in tests if "set_messages" not in norm(t.ast) and not any(isinstance(x, ast.Name) and x.id in sb.entry_names(ctx, f, "set_messages") for x in ast.walk(t.ast))]
             k2 = fkey(f, st) + "::condition"
             if len(tests) != 1:
                 raise AnalysisError(f"PARK-1: parking condition shape not recognised in {f.fq}")
             t = tests[0]
-            terms = t.ast.values if isinstance(t.ast, ast.BoolOp) and isinstance(t.ast.op, ast.And) else [t.ast]
+            te = t.ast
+            pol = sb.branch_polarity(g, t, snode)
+            # `if not (A and B and C): write / else: park` parks under A and B and C
+            if pol is False and isinstance(te, ast.UnaryOp) and isinstance(te.op, ast.Not):
+                te, pol = te.operand, True
+            terms = te.values if isinstance(te, ast.BoolOp) and isinstance(te.op, ast.And) else [te]
             got = sorted(cn.canon(x) for x in terms)
             node_c = "gateway.nodes.get(In.node_id)"
             want_sets = [
@@ -102,7 +108,7 @@ def park1(ctx: Ctx, chk) -> None:
                 sorted(["message_buffer", f"{node_c} is not None", f"{node_c}.sleeping"]),
                 sorted(["message_buffer is not None", node_c, f"{node_c}.sleeping"]),
             ]
-            true_branch = all(any(lab == "t" for s, lab in t.succ) and g.reach_avoiding([s2 for s2, lab in t.succ if lab == "f"], lambda x: x in snode, lambda x: False, from_succ=False) is None for _ in [0])
+            true_branch = pol is True
             if got in want_sets and true_branch:
                 chk.ok(rule, k2, "parks iff buffer passed and node known and node.sleeping", ctx.loc(f, t.ast))
             else:
